@@ -158,6 +158,7 @@ func genOverlay(repo, verif, out, flavour string) (map[string]string, *overlaySt
 	st := &overlayStats{}
 	replace := map[string]string{}
 	var siteNames []string
+	var siteFiles []string // source file of every yield / probe site (for the reach report of the evidence files)
 	fset := token.NewFileSet()
 	simrtImport := `;import simrt "` + modPath + `/internal/simrt"`
 
@@ -249,6 +250,7 @@ func genOverlay(repo, verif, out, flavour string) (map[string]string, *overlaySt
 					}
 					id := len(siteNames)
 					siteNames = append(siteNames, pkgShort+"."+recvName(fd)+fd.Name.Name)
+					siteFiles = append(siteFiles, rel)
 					extra := ""
 					if dir == "internal/caching" && fd.Name.Name == "StrHash" {
 						// seam: runtime.strhash is keyed by a per-process random seed; inside a world the
@@ -276,6 +278,7 @@ func genOverlay(repo, verif, out, flavour string) (map[string]string, *overlaySt
 						}
 						pid := len(siteNames)
 						siteNames = append(siteNames, pkgShort+"."+fd.Name.Name+"#"+nm)
+						siteFiles = append(siteFiles, rel)
 						eds = append(eds, edit{off(cc.Colon) + 1, 0, "simrt.Probe(" + strconv.Itoa(pid) + ");"})
 						st.ProbeSites++
 						return true
@@ -348,6 +351,9 @@ func genOverlay(repo, verif, out, flavour string) (map[string]string, *overlaySt
 			replace[filepath.Join(repo, dstRel, name)] = dst
 		}
 		return nil
+	}
+	if sj, err := json.Marshal(map[string][]string{"names": siteNames, "files": siteFiles}); err == nil {
+		os.WriteFile(filepath.Join(out, "sites.json"), sj, 0o644)
 	}
 	var sb strings.Builder
 	sb.WriteString("package simrt\n\n// generated by dynsim gen-overlay\nvar SiteNames = []string{\n")
